@@ -192,28 +192,31 @@ namespace bluetoe {
 
             std::pair< notification_queue_entry_type, std::size_t > dequeue_indication_or_confirmation( std::size_t offset, std::size_t& outstanding_confirmation )
             {
-                bool ignore_first = true;
+                // loop over all entries in a circle. There are two entries per characteristic (first the
+                // indication, than the notification); next_ is the entry following the last dequeued one, so
+                // that every queued entry gets its turn, before any other entry is dequeued for a second time.
+                std::size_t pos = next_;
 
-                // loop over all entries in a circle
-                for ( std::size_t i = next_; ignore_first || i != next_; i = ( i + 1 ) % Size )
+                for ( std::size_t count = 0; count != entries; ++count, pos = ( pos + 1 ) % entries )
                 {
-                    ignore_first = false;
-                    auto entry = at( i );
+                    const std::size_t i   = pos / bits_per_characteristc;
+                    const int         bit = pos % bits_per_characteristc == 0 ? indication_bit : notification_bit;
 
-                    if ( entry & indication_bit && outstanding_confirmation == no_outstanding_indicaton )
+                    if ( ( at( i ) & bit ) == 0 )
+                        continue;
+
+                    if ( bit == indication_bit )
                     {
+                        if ( outstanding_confirmation != no_outstanding_indicaton )
+                            continue;
+
                         outstanding_confirmation = i + offset;
-                        next_ = ( i + 1 ) % Size;
-                        remove( i, indication_bit );
-                        return { notification_queue_entry_type::indication, i + offset };
-                    }
-                    else if ( entry & notification_bit )
-                    {
-                        next_ = ( i + 1 ) % Size;
-                        remove( i, notification_bit );
-                        return { notification_queue_entry_type::notification, i + offset };
                     }
 
+                    next_ = ( pos + 1 ) % entries;
+                    remove( i, bit );
+
+                    return { bit == indication_bit ? notification_queue_entry_type::indication : notification_queue_entry_type::notification, i + offset };
                 }
 
                 return { notification_queue_entry_type::empty, 0 };
@@ -259,6 +262,7 @@ namespace bluetoe {
             }
 
             static constexpr std::size_t bits_per_characteristc = 2;
+            static constexpr std::size_t entries                = Size * bits_per_characteristc;
 
             enum char_bits {
                 notification_bit = 0x01,
@@ -308,17 +312,21 @@ namespace bluetoe {
             std::pair< notification_queue_entry_type, std::size_t > dequeue_indication_or_confirmation( std::size_t offset, std::size_t& outstanding_confirmation )
             {
                 const std::uint8_t state = state_;
+                const bool indication_ready   = ( state & indication_bit ) && outstanding_confirmation == details::no_outstanding_indicaton;
+                const bool notification_ready = ( state & notification_bit ) != 0;
 
-                if ( ( state & indication_bit ) && outstanding_confirmation == details::no_outstanding_indicaton )
+                // if both are queued, the one that was not dequeued the last time goes first
+                if ( indication_ready && !( notification_ready && ( state & notification_first_bit ) ) )
                 {
                     outstanding_confirmation = offset;
                     state_ &= static_cast< std::uint8_t >( ~indication_bit );
+                    state_ |= notification_first_bit;
 
                     return { notification_queue_entry_type::indication, offset };
                 }
-                else if ( state & notification_bit )
+                else if ( notification_ready )
                 {
-                    state_ &= static_cast< std::uint8_t >( ~notification_bit );
+                    state_ &= static_cast< std::uint8_t >( ~( notification_bit | notification_first_bit ) );
 
                     return { notification_queue_entry_type::notification, offset };
                 }
@@ -340,8 +348,10 @@ namespace bluetoe {
             }
 
             enum char_bits : std::uint8_t {
-                notification_bit = 0x01,
-                indication_bit   = 0x02
+                notification_bit       = 0x01,
+                indication_bit         = 0x02,
+                // the last dequeued entry was the indication
+                notification_first_bit = 0x04
             };
 
 #ifdef BLUETOE_VERIF_HOOKS
